@@ -54,7 +54,7 @@ CLAIMED['C16'] = {
             'idempotence); every exported insertion-by-location on DelaunayTriangulation passes coordinate '
             'canonicalisation before the vertex can reach storage; the toroidal builder arms canonicalise, construct '
             'from the canonicalised vertices and record the topology before Ok; no exported operation other than '
-            'set_global_topology changes the recorded topology on any path (whole-receiver replacements must copy it); a vertex re-created at perturbed coordinates is wrapped again; every builder arm passes the configured options and guarantee to its constructor, and the arm that builds from canonicalised vertices must hand over the topology as well (violated today: known finding F21). Decides the wrapping-mode clauses '
+            'set_global_topology changes the recorded topology on any path (whole-receiver replacements must copy it); a vertex re-created at perturbed coordinates is wrapped again; every builder arm passes the configured options and guarantee to its constructor, and the arm that builds from canonicalised vertices must hand over the topology as well (violated today: known finding F21); in the periodic image-point mode the boundary-count and Euler-characteristic acceptance tests each refuse on their own. Decides the wrapping-mode clauses '
             'structurally; the periodic image-point mode is not decided.',
     'note': 'Trusted: rustc MIR; the canonicalisation leaf is GlobalTopologyModel::canonicalize_point_in_place (any '
             'impl); congruence modulo the period is arithmetic and not decided.',
@@ -71,7 +71,7 @@ CLAIMED['C19'] = {
             '(constructors and k=1 flips are reasoned table entries); helpers that assert hull freshness are called only '
             'behind the typed staleness check; checked integer arithmetic (overflow / division asserts on non-usize integers, '
             'usize subtraction) per function matches a classified table; slice indices that are caller-handle values are '
-            'range-checked first; range indexing is guarded by a length test on the same collection; range samplers are reached only behind a finiteness test of the range width. Decides "no unbounded loop / recursion, no new '
+            'range-checked first; range indexing is guarded by a length test on the same collection (or bounded by an iterator position); every non-literal slice / array index is bounded by an order comparison, an iterator position, len / min / clamp / remainder, or sits in a reasoned table; range samplers are reached only behind a finiteness test of the range width. Decides "no unbounded loop / recursion, no new '
             'panic site, non-finite input gated"; not complexity, stack depth or arithmetic asserts.',
     'note': 'Trusted: rustc MIR; finiteness of std/slotmap/smallvec iterators; the LOOP / PANIC / FINITE tables in '
             'engine/rules/c19.py (each entry with a reason). Idiom classifiers: an unrecognised but correct new loop or '
@@ -119,6 +119,7 @@ CLAIMED['C05'] = {
             'passes (success edge) every leaf checker of its level and the lower cumulative validator before Ok; the '
             'guarantee-dependent link checkers are passed on the true edge of their predicates; no validator drops or '
             'swallows a checker result; each diagnostic report reaches the leaves its validator reaches; each Level 1-2 leaf (transitively) reads the data its invariant is about. '
+            'Cell::is_valid refuses every vertex count other than D + 1 by an (in)equality test. '
             'Decides "cumulative = conjunction of levels" and "nothing is skipped or swallowed"; not that each '
             'leaf detects its fault class.',
     'note': 'Trusted: rustc MIR; the Level 1-3 leaf tables in engine/rules/tables.py; a checker returning a verdict '
@@ -180,7 +181,7 @@ CLAIMED['C07'] = {
             'builders; the 12 Edit-API methods and the kernel layers are clean on failure (C03 engine); every simplex hash '
             'used by the guards is computed over the same canonical (u64-sorted) key sequence at the index builder and at '
             'every lookup; the kernel reports success only behind neighbour wiring, removal of the old cells and the '
-            'coherent-orientation normalisation, for every k; each context builder refuses dimensions below the size of its move; a negatively oriented new cell is reordered before insertion; the run-time move size handed to the dynamic flip entry is computed from the const dimension alone and the Edit API and the repair loop agree on it per context builder. Decides "no mutation before the guards, no unvalidated context, no trace on failure, guards and '
+            'coherent-orientation normalisation, for every k; each context builder refuses dimensions below the size of its move; a negatively oriented new cell is reordered before insertion; the run-time move size handed to the dynamic flip entry is computed from the const dimension alone and the Edit API and the repair loop agree on it per context builder; the k=1 cell split clears the incident-cell pointer of the caller\'s copy and gives the stored vertex one of the new cells. Decides "no mutation before the guards, no unvalidated context, no trace on failure, guards and '
             'index agree on keys, the structural post-steps are never skipped"; not manifold preservation, counts or invertibility.',
     'note': 'Trusted: as for C03; 4 assumed-infeasible exits in the kernel and known finding F2 (2 exits) are shared with C03.',
     'technique': 'must-pass-through (dominance), construction-site enumeration and rollback dataflow over rustc MIR',
